@@ -476,7 +476,13 @@ func (cx *Ctx) paramDivisions(r *Report) {
 					}()
 					runC01(cx, sub)
 				}()
-				clean := len(sub.Viols) == 0 && len(sub.ToolErrs) == 0
+				clean := len(sub.ToolErrs) == 0
+				for _, v := range sub.Viols {
+					// the price functions and their reserve guards; liquidity formulas have their own rule
+					if v.Rule == "price-formula" || (v.Rule == "reserve-guard" && strings.Contains(v.Key, "|SwapCoin")) {
+						clean = false
+					}
+				}
 				cx.c01Clean = &clean
 			}
 			ok3 := *cx.c01Clean
